@@ -3,6 +3,7 @@
 // Form H (history search): every operation sequence up to length k over
 //
 //	new Box<T> | new Pair<K,V>            T,K,V in {int, string, array, user class U}
+//	new Box() | new AnyBox() (same for Pair)  no type arguments / plain subclass of the generic: run, not judged
 //	#i.member = value   (property store)  value kind in {int, string, array, U [, W]}
 //	#i.set_member(value) (method whose body stores into the typed property)
 //
@@ -63,8 +64,8 @@ func judge(seq []Op) verdict {
 			}
 			return v
 		}
-		if exp[i] == got[i] {
-			continue
+		if exp[i] == got[i] || (exp[i] == "*" && got[i] != "") {
+			continue // "*": write on an object created without type arguments — run, not judged
 		}
 		v.Step = i
 		switch {
@@ -97,12 +98,15 @@ func cloneSeq(s []Op) []Op {
 // measure orders sequences: shorter, fewer Pair instances, fewer method routes, simpler kinds in
 // order of appearance, `new`s earlier, writes ordered by instance.
 func measure(s []Op) []int {
-	nPair, nMeth := 0, 0
+	nPair, nMeth, nSub := 0, 0, 0
 	var nRanks, wRanks, newPos, wInst []int
 	for i, o := range s {
 		if o.New {
 			if o.G == "Pair" {
 				nPair++
+			}
+			if o.Raw == "sub" {
+				nSub++
 			}
 			for _, a := range o.Args {
 				nRanks = append(nRanks, kindRank(a))
@@ -121,7 +125,7 @@ func measure(s []Op) []int {
 			}
 		}
 	}
-	m := []int{len(s), nPair, nMeth, len(nRanks)}
+	m := []int{len(s), nPair, nMeth, nSub, len(nRanks)}
 	m = append(m, nRanks...) // type arguments in creation order
 	m = append(m, wRanks...) // written kinds in write order
 	m = append(m, newPos...)
@@ -186,7 +190,10 @@ func candidates(s []Op) [][]Op {
 				c := []Op{}
 				for j, p := range cloneSeq(s) {
 					if j == i {
-						p.G, p.Args = "Box", []string{o.Args[keep]}
+						p.G = "Box"
+						if len(o.Args) > keep {
+							p.Args = []string{o.Args[keep]}
+						}
 					} else if !p.New && p.Inst == inst {
 						if p.Member != m {
 							continue
@@ -214,7 +221,10 @@ func candidates(s []Op) [][]Op {
 		any := false
 		for _, p := range cloneSeq(s) {
 			if p.New && p.G == "Pair" {
-				p.G, p.Args = "Box", []string{p.Args[keep]}
+				p.G = "Box"
+				if len(p.Args) > keep {
+					p.Args = []string{p.Args[keep]}
+				}
 				any = true
 			} else if !p.New && isPair[p.Inst] {
 				if p.Member != m {
@@ -232,6 +242,11 @@ func candidates(s []Op) [][]Op {
 		if !o.New && o.Route == "meth" {
 			c := cloneSeq(s)
 			c[i].Route = "prop"
+			out = append(out, c)
+		}
+		if o.New && o.Raw == "sub" {
+			c := cloneSeq(s)
+			c[i].Raw = "raw"
 			out = append(out, c)
 		}
 	}
@@ -515,6 +530,14 @@ func countSeqs(a alpha, maxLen int) map[int]int64 {
 			np = int64(len(a.Types) * len(a.Types))
 		}
 	}
+	if a.Raw {
+		if nb > 0 {
+			nb += 2
+		}
+		if np > 0 {
+			np += 2
+		}
+	}
 	wb := int64(len(a.Routes) * len(a.Vals))
 	wp := 2 * wb
 	// state: (boxes, pairs) live
@@ -567,17 +590,26 @@ func main() {
 	two := []string{"int", "string"}
 	full := alpha{Generics: []string{"Box", "Pair"}, Types: four, Vals: four, Routes: both}
 	// quick: the full alphabet to length 3, and length 4 on three sub-alphabets (each complete)
+	fullRaw := full
+	fullRaw.Raw = true
+	// quick: the full alphabet (incl. raw `new G()` and subclass `new AnyG()` objects) to length 3, and
+	// length 4 on four sub-alphabets (each complete)
 	plans := []plan{
-		{"full", full, 3},
-		{"box-4kinds", alpha{Generics: []string{"Box"}, Types: four, Vals: four, Routes: both}, 4},
+		{"full+raw", fullRaw, 3},
+		{"box-4kinds+raw", alpha{Generics: []string{"Box"}, Types: four, Vals: four, Routes: both, Raw: true}, 4},
 		{"pair-3kinds", alpha{Generics: []string{"Pair"}, Types: three, Vals: three, Routes: both}, 4},
-		{"box+pair-2kinds", alpha{Generics: []string{"Box", "Pair"}, Types: two, Vals: two, Routes: both}, 4},
+		{"pair-2kinds+raw", alpha{Generics: []string{"Pair"}, Types: two, Vals: two, Routes: both, Raw: true}, 4},
+		{"box+pair-2kinds+raw", alpha{Generics: []string{"Box", "Pair"}, Types: two, Vals: two, Routes: both, Raw: true}, 4},
 	}
 	if !c.Quick() {
 		// thorough: the full alphabet to length 4; longer histories on sub-alphabets; the foreign class W as a value
 		plans = []plan{
 			{"full", full, 4},
+			{"full+raw", fullRaw, 3},
+			{"box-4kinds+raw", alpha{Generics: []string{"Box"}, Types: four, Vals: four, Routes: both, Raw: true}, 4},
+			{"pair-3kinds+raw", alpha{Generics: []string{"Pair"}, Types: three, Vals: three, Routes: both, Raw: true}, 4},
 			{"box-4kinds+W", alpha{Generics: []string{"Box"}, Types: four, Vals: allKinds, Routes: both}, 5},
+			{"box-2kinds+raw", alpha{Generics: []string{"Box"}, Types: two, Vals: two, Routes: both, Raw: true}, 5},
 			{"pair-2kinds", alpha{Generics: []string{"Pair"}, Types: []string{"int", "U"}, Vals: []string{"int", "U"}, Routes: both}, 5},
 			{"box-prop-3kinds", alpha{Generics: []string{"Box"}, Types: three, Vals: three, Routes: []string{"prop"}}, 6},
 		}
